@@ -10,6 +10,8 @@ import (
 	"io"
 	"os"
 	"os/exec"
+	"path/filepath"
+	"runtime"
 	"strconv"
 	"strings"
 	"time"
@@ -286,6 +288,12 @@ func (s *Solver) CheckInc(pc []*Term, extra []*Term, wantModel bool) (Result, ma
 	defer func() { s.Time += time.Since(t0) }()
 	s.Queries++
 	s.sinceRestart++
+	if slowLog {
+		_, f1, l1, _ := runtime.Caller(2)
+		_, f2, l2, _ := runtime.Caller(3)
+		_, f3, l3, _ := runtime.Caller(4)
+		fmt.Fprintf(os.Stderr, "QORIGIN %s:%d<%s:%d<%s:%d\n", filepath.Base(f1), l1, filepath.Base(f2), l2, filepath.Base(f3), l3)
+	}
 	for _, t := range pc {
 		if t.IsFalse() {
 			s.NUnsat++
